@@ -141,12 +141,6 @@ def fkindStr : Option FKind → Sexp
 def decisionStr (d : Decision) : Sexp :=
   .list [q d.sigPrefix, q d.callPrefix, .atom d.retChecked, .atom d.retUnchecked]
 
-def extractedFeats : List (String × Feat) :=
-  BearVerif.Extracted.genSnippetFeats.filterMap (fun p => p.2.map (fun f => (p.1, ⟨f.1, f.2.1, f.2.2.1, f.2.2.2.1, f.2.2.2.2⟩)))
-
-def extractedProg : List GAssign :=
-  BearVerif.Extracted.genReinitProg.map (fun p => ⟨p.1, p.2.1, p.2.2⟩)
-
 def boolOf : Sexp → Option Bool
   | .atom "true" => some true
   | .atom "false" => some false
@@ -157,11 +151,11 @@ def handleKind (args : List Sexp) : Option Sexp := do
   | [c, g, a] =>
     let f : Flags := ⟨← boolOf c, ← boolOf g, ← boolOf a⟩
     let dh := reinitDecision f
-    let dx := runReinit BearVerif.Extracted.genReinitDefaults extractedProg f
+    let dx := runReinit BearVerif.Extracted.genReinitDefaults BearVerif.Extracted.genReinitProg f
     pure (.list [.list [.atom "hand", decisionStr dh], .list [.atom "extracted", decisionStr dx],
                  .list [.atom "kind", fkindStr (some f.kind)],
-                 .list [.atom "wrapper-checked", fkindStr (wrapperKind extractedFeats dx true)],
-                 .list [.atom "wrapper-unchecked", fkindStr (wrapperKind extractedFeats dx false)]])
+                 .list [.atom "wrapper-checked", fkindStr (wrapperKind BearVerif.Extracted.genSnippetFeats dx true)],
+                 .list [.atom "wrapper-unchecked", fkindStr (wrapperKind BearVerif.Extracted.genSnippetFeats dx false)]])
   | _ => none
 
 def handle (args : List Sexp) : Option Sexp :=
